@@ -2186,6 +2186,9 @@ func (db *DB) sync(ctx context.Context, checkpointing bool, exec *syncExecutor, 
 	if err != nil {
 		return result, fmt.Errorf("page map: %w", err)
 	}
+	if verifEnabled {
+		verifTrace("sync.pagemap", db.path)
+	}
 	result.limited = limited
 	if walCommit > 0 {
 		commit = walCommit
